@@ -546,13 +546,16 @@ func (s *Store[H]) flush(ctx context.Context, headers ...H) error {
 	}
 
 	// marshal and add to batch reference to the new head and tail
-	head := *s.contiguousHead.Load()
-	if err := writeHeaderHashTo(ctx, batch, head, headKey); err != nil {
-		return err
+	// (the pointers are unset if the store was wiped while headers outside of the chain were pending)
+	if head := s.contiguousHead.Load(); head != nil {
+		if err := writeHeaderHashTo(ctx, batch, *head, headKey); err != nil {
+			return err
+		}
 	}
-	tail := *s.tailHeader.Load()
-	if err := writeHeaderHashTo(ctx, batch, tail, tailKey); err != nil {
-		return err
+	if tail := s.tailHeader.Load(); tail != nil {
+		if err := writeHeaderHashTo(ctx, batch, *tail, tailKey); err != nil {
+			return err
+		}
 	}
 
 	// write height indexes for headers as well
